@@ -41,6 +41,7 @@ def shrink(ap, still_bad, budget=40):
         tl = [p for p, n in projects.walk(cur["tasks"]) if "kids" not in n]
         for p in reversed(tl):
             cand = copy.deepcopy(cur)
+            cand.pop("_inh_hours", None)          # cache of inherited calendars (projects.own_or_inherited_hours)
             if not remove_task(cand, p):
                 continue
             steps += 1
